@@ -34,7 +34,7 @@ func init() {
 		ID:    "C20",
 		Level: "exploration",
 		Rule: "structured enumeration: client and server configurations built from per-field boundary lists (names/passwords with spaces, non-ASCII, percent-escapes, URL delimiters, 64 bytes; port bindings single/range/both; egress proxies and rules; DNS hosts; traffic patterns; optional fields unset/zero/boundary), all single-field and pairwise combinations, x both file formats; " +
-			"patches = every subset of <=2 top-level fields; share links mieru:// and mierus:// for every profile; malformed input = every string of length <=7 over {m,i,e,r,u,s,:,/,?,@,=,%,A} starting with 'm', plus every truncation and single-byte substitution of valid links and JSON documents. " +
+			"patches = every subset of <=2 top-level fields, for server and client configurations (client: boundary values 0 / false / empty included); share links mieru:// and mierus:// for every profile; malformed input = every string of length <=7 over {m,i,e,r,u,s,:,/,?,@,=,%,A} starting with 'm', plus every truncation and single-byte substitution of valid links and JSON documents. " +
 			"Oracle: validate => store, load, construct and start the multiplexer without panic; proto-equal after store->load (modulo the documented password hashing) and export->import; patch changes only what it sets; stored server bytes contain no configured password; malformed => error, never panic. distinct = distinct configurations / strings",
 		Assumptions: []string{
 			"field values come from boundary lists; combinations are pairwise-complete, not the full product",
@@ -771,6 +771,7 @@ func units(tier string) []runner.Unit {
 		u.DistinctN(int64(n) + 3 + 2048 + 30)
 		u.Sample("share links of profiles whose traffic pattern has seed 0..N, every padding maximum 0..255, every low-entropy mode; the pattern must survive mierus:// and mieru:// export/import")
 	}})
+	us = append(us, clientPatchUnits(tier, mk)...)
 	us = append(us, malformedUnits(tier, mk)...)
 	return us
 }
